@@ -47,6 +47,104 @@ def _delegate_calls(f, attr):
     return dele, selfc
 
 
+
+def _swallowing_try(fn_node, call):
+    """The innermost enclosing `try` of `call` inside fn_node whose handlers can end without re-raising, or None."""
+    parents = {}
+    for x in ast.walk(fn_node):
+        for ch in ast.iter_child_nodes(x):
+            parents[ch] = x
+    x = call
+    while x in parents:
+        p = parents[x]
+        if isinstance(p, ast.Try) and any(x is b or x in list(ast.walk(b)) for b in p.body):
+            for h in p.handlers:
+                names = ast.unparse(h.type) if h.type is not None else 'BaseException'
+                broad = any(w in names for w in ('Exception', 'BaseException'))
+                reraises = any(isinstance(y, ast.Raise) for y in ast.walk(ast.Module(body=h.body, type_ignores=[])))
+                if broad and not reraises:
+                    return p
+        x = p
+    return None
+
+
+def _helper_forward(c, f, name):
+    """(helper FuncInfo, the helper's call of its call-back parameter, the call site in f) when f hands
+    self.delegate.<name> and its own parameters, in order, to a method of c that calls what it is given with the
+    remaining arguments; else None."""
+    own = f.params()[1:]
+    for n in walk_local(f.node):
+        if not (isinstance(n, ast.Call) and isinstance(n.func, ast.Attribute) and isinstance(n.func.value, ast.Name) and
+                n.func.value.id == 'self' and n.args):
+            continue
+        a0 = n.args[0]
+        if not (isinstance(a0, ast.Attribute) and a0.attr == name and isinstance(a0.value, ast.Attribute) and
+                a0.value.attr == 'delegate' and isinstance(a0.value.value, ast.Name) and a0.value.value.id == 'self'):
+            continue
+        rest = [x.id if isinstance(x, ast.Name) else None for x in n.args[1:]]
+        if rest != own[:len(rest)] or len(rest) < len(own) - len(f.node.args.defaults):
+            continue
+        h = c.lookup(n.func.attr)
+        if h is None or len(h.params()) < 2 or h.node.args.vararg is None:
+            continue
+        cb, star = h.params()[1], h.node.args.vararg.arg
+        for x in walk_local(h.node):
+            if isinstance(x, ast.Call) and isinstance(x.func, ast.Name) and x.func.id == cb and len(x.args) == 1 and \
+                    isinstance(x.args[0], ast.Starred) and isinstance(x.args[0].value, ast.Name) and \
+                    x.args[0].value.id == star:
+                return h, x, n
+    return None
+
+
+def _forwarded_through_helper(c, f, name):
+    return _helper_forward(c, f, name) is not None
+
+
+def rule_delegations_propagate(ctx):
+    """C20.p  The adapters are transparent to failures of the delegate: what a delegate method raises reaches the
+    caller of the adapter's method.  The core reacts to those exceptions - on_setup raising is the rejection of the
+    SETUP (ERROR[REJECTED_SETUP] on stream 0), a request method raising becomes the ERROR frame of that stream; an
+    adapter that catches and logs them accepts every connection and answers nothing.  In each of the ten
+    RequestHandler methods of both handler adapters the call of the delegate's method - direct, or through a helper
+    of the class that calls what it is handed - is not inside a `try` whose handler for Exception / BaseException can
+    end without re-raising."""
+    rep = ctx.report
+    rh = ctx.repo.cls('rsocket.request_handler:RequestHandler')
+    abstract = [n for n, f in rh.methods.items() if any('abstractmethod' in d for d in f.decorators)]
+    n = 0
+    for pkg in PKGS:
+        c = ctx.repo.cls(HANDLER_ADAPTERS[pkg])
+        for name in sorted(abstract):
+            f = c.methods.get(name)
+            if f is None:
+                continue
+            sites = []
+            for x in walk_local(f.node):
+                if isinstance(x, ast.Call) and isinstance(x.func, ast.Attribute) and x.func.attr == name and \
+                        isinstance(x.func.value, ast.Attribute) and x.func.value.attr == 'delegate':
+                    sites.append((f, x))
+            hf = _helper_forward(c, f, name)
+            if hf is not None:
+                sites.append((hf[0], hf[1]))
+                sites.append((f, hf[2]))
+            if not sites:
+                continue  # C20.a reports a method that does not delegate
+            n += 1
+            bad = None
+            for g, call in sites:
+                t = _swallowing_try(g.node, call)
+                if t is not None:
+                    bad = (g, t)
+            rep.add('C20.p', '%s.%s / a failure of the delegate reaches the caller' % (c.name, name), f, bad is None,
+                    'the delegate is called outside any handler that swallows' if bad is None else
+                    'line %d (%s): the delegate\'s exception is caught and not re-raised%s' % (
+                        bad[1].lineno, bad[0].short,
+                        ' - an on_setup that rejects the SETUP is taken for an acceptance' if name == 'on_setup' else
+                        ' - the core never learns that the call failed'))
+    rep.require('C20.p', 'adapter delegations', n, 18)
+
+
+
 def rule_a(ctx):
     rep = ctx.report
     rh = ctx.repo.cls('rsocket.request_handler:RequestHandler')
@@ -73,6 +171,8 @@ def rule_a(ctx):
                              e.data.get('recv') is not None and e.data['recv'].term == ('self',)]
                 if selfcalls:
                     ok, detail = False, 'the adapter calls its own %s (unbounded recursion), not the delegate\'s' % name
+                elif not same and _forwarded_through_helper(c, f, name):
+                    pass  # self.<helper>(self.delegate.<name>, <own arguments>), the helper calling what it is given
                 elif not same:
                     others = sorted({e.data.get('name') for e in calls})
                     ok, detail = False, 'a path through %s does not call delegate.%s%s' % (
@@ -1068,4 +1168,4 @@ def rule_empty_response_default(ctx):
 
 
 
-RULES = [('C20.a', rule_a), ('C20.b', c06a), ('C20.c', c06b), ('C20.d', rule_d), ('C20.e', rule_e), ('C20.f', rule_f), ('C20.g', rule_g), ('C20.e+C20.g', rule_h), ('C15.d', rule_coroutines), ('C20.i', rule_i), ('C20.j', rule_j), ('C20.k', rule_k), ('C06.e', rule_queue_sources), ('C20.l', rule_empty_filter), ('C20.m', rule_handler_per_connection), ('C20.n', rule_feeder_errors), ('C20.o', rule_empty_response_default)]
+RULES = [('C20.a', rule_a), ('C20.b', c06a), ('C20.c', c06b), ('C20.d', rule_d), ('C20.e', rule_e), ('C20.f', rule_f), ('C20.g', rule_g), ('C20.e+C20.g', rule_h), ('C15.d', rule_coroutines), ('C20.i', rule_i), ('C20.j', rule_j), ('C20.k', rule_k), ('C06.e', rule_queue_sources), ('C20.l', rule_empty_filter), ('C20.m', rule_handler_per_connection), ('C20.n', rule_feeder_errors), ('C20.o', rule_empty_response_default), ('C20.p', rule_delegations_propagate)]
